@@ -14,7 +14,7 @@ Values travel between generator, runner and Coq printer in a tagged form ("tv") 
 JSON's own float/int/unicode handling:
   ["n"] | ["b",bool] | ["i","<decimal>"] | ["f","<float.hex()>"] | ["s",[code points]] | ["a",[tv..]] | ["o",[[[cps],tv]..]]
 """
-import os, json, math
+import os, sys, json, math
 
 from vlib.coqlit import cstr, cz, cbool, clist, cpair
 
@@ -1051,6 +1051,16 @@ def truth_of_case(case):
     return t
 
 
+def voxels_of(case):
+    """the voxel data of the case's image (generator truth): zeros, or - when the case has a data seed - a fixed pattern"""
+    import numpy as np
+    shape = tuple(case['shape'])
+    if case.get('data_seed') is None:
+        return np.zeros(shape, dtype=np.int16)
+    n = int(np.prod(shape))
+    return ((np.arange(n, dtype=np.int64) * 7 + case['data_seed']) % 997).astype(np.int16).reshape(shape)
+
+
 def make_image(case, ext):
     """an image of the case's shape carrying `ext` (and, optionally, extensions that are not ours); little or big endian;
     single file or header/image pair"""
@@ -1065,7 +1075,7 @@ def make_image(case, ext):
             # the extension keeps the case's affine (any floats); the IMAGE gets a tame one: nibabel's qform code runs an
             # SVD that does not terminate in reasonable time on matrices mixing subnormal and huge entries (not C09's subject)
             aff = np.eye(4)
-        img = cls(np.zeros(tuple(case['shape']), dtype=np.int16), aff, header=hdr)
+        img = cls(voxels_of(case), aff, header=hdr)
         if case.get('hdr_slice') is not None:
             img.header.set_dim_info(slice=case['hdr_slice'])
         f = case.get('foreign')
@@ -1813,7 +1823,196 @@ class Hist:
                 yield c
 
 
-PARTS = [Codec, Loads, Ext, Hist]
+# ------------------------------------------------------------------------------------------------
+# part 5: load -> edit -> save ONTO THE PATH THE IMAGE WAS LOADED FROM (uncompressed .nii included), real voxel data.
+# F28: from_filename memory mapped the data, so writing the wrapper back over its own file read voxels from the file being
+# truncated (garbage voxels, or SIGBUS once the extension grows past a page).  Every cycle runs in a child process of its
+# own, so that a killed interpreter is an observation.
+
+def samepath_child(spec_path):
+    """child process: one load / edit / save-onto-the-same-path cycle; writes the observation next to the spec"""
+    import copy
+    spec = json.load(open(spec_path))
+    repo = os.environ.get('DCMSTACK_REPO', '/repo')
+    src = os.path.join(repo, 'src')
+    sys.path.insert(0, src)
+    import warnings
+    warnings.simplefilter('ignore')
+    import dcmstack
+    if not os.path.realpath(dcmstack.__file__).startswith(os.path.realpath(src) + os.sep):
+        raise SystemExit('refusing to run: dcmstack was imported from %s, not from %s' % (dcmstack.__file__, src))
+    from dcmstack.dcmmeta import NiftiWrapper
+    nw = NiftiWrapper.from_filename(spec['path'])
+    cur = nw.meta_ext
+    for ed in spec['edits']:
+        apply_edit(cur, ed)
+    snapshot = copy.deepcopy(content_of(cur))
+    pt = {'cur': enc(snapshot)}
+    serial_obs(cur, pt)
+    pt['post_same'] = same(content_of(cur), snapshot)
+    try:
+        nw.to_filename(spec['path'])
+        pt['save'] = 'ok'
+    except Exception as e:
+        pt['save'] = errname(e)
+    pt['mem_after'] = same(content_of(cur), snapshot)
+    json.dump(pt, open(spec['out'], 'w'))
+
+
+class SamePath:
+    NAME = "ext_samepath"
+    CORR_REQUIRE = Hist.CORR_REQUIRE
+    CORR_CASE_TYPE = "Corr.hist_case"
+    CORR_CHECK = "Corr.check_hist"
+    CORR_SHOW = "Corr.show_hist"
+    SHARD = 6
+    IMPL_TIMEOUT = 240
+    RULE = ("an image with real voxel data (>= 64x64x8 int16, so that a memory mapping of the file matters) and a valid extension is "
+            "written to .nii (3 in 4) or .nii.gz; then 1-3 times, each time in a fresh child process: NiftiWrapper.from_filename, "
+            "in-place edits (among them a constant that grows the extension by 10 .. 100000 bytes, or removes it again), "
+            "to_filename onto the SAME path. Observed per cycle: exit status of the child, content/to_json/str in the child, the "
+            "extension bytes parsed out of the file, the extension a fresh from_filename finds, and the voxel data of the file "
+            "against the generator's array. non-trivial = some edit changed the content")
+
+    @staticmethod
+    def gen_cases(rng, tier):
+        n = 20 if tier == 'quick' else 80
+        out = []
+        for i in range(n):
+            shape = rng.choice([[64, 64, 8], [64, 64, 8], [32, 64, 16], [64, 64, 8, 2], [40, 48, 20]])
+            slice_dim = rng.choice([None, 2, 2, 1])
+            c = {'shape': shape, 'slice_dim': slice_dim, 'affine': gen_affine(rng, 0.1), 'reorient': None, 'extra': [], 'stale': [],
+                 'version': 0.6, 'corrupt': None, 'csel': 0, 'build': 'make_empty', 'endian': '>' if rng.random() < 0.15 else '<',
+                 'foreign': rng.choice([None, None, 'after']), 'hdr_slice': rng.choice([None, 2, slice_dim]),
+                 'data_seed': rng.randrange(997), 'entries': []}
+            for k in gen_keys(rng, rng.randrange(0, 3)):
+                c['entries'].append(['global', 'const', k, gen_value(rng, 1, False, 2)])
+            entries = [list(e) for e in c['entries']]
+            groups = []
+            grown = False
+            for g in range(rng.choice([1, 2, 2, 3])):
+                eds = []
+                if grown and rng.random() < 0.4:
+                    eds.append({'op': 'del', 'cls': ['global', 'const'], 'key': [75]})
+                    grown = False
+                else:
+                    size = rng.choice([10, 300, 5000, 5000, 20000, 20000, 20000, 100000])
+                    eds.append({'op': 'set', 'cls': ['global', 'const'], 'key': [75], 'val': ['s', [118 + (g % 3)] * size]})
+                    grown = True
+                if rng.random() < 0.5:
+                    eds.append(gen_edit(rng, c, entries))
+                groups.append({'edits': eds, 'invalid': False})
+            fmt = 'niigz' if i % 4 == 3 else 'nii'
+            c['hist'] = {'mode': 'samepath', 'fmt': fmt, 'groups': groups}
+            c['kind'] = 'samepath/%s/%dcycles' % (fmt, len(groups))
+            if hist_plan_ok(c):
+                out.append(c)
+        return out
+
+    @staticmethod
+    def run_impl(case):
+        import copy, shutil, tempfile, subprocess
+        import numpy as np
+        import nibabel as nb
+        from dcmstack.dcmmeta import NiftiWrapper
+        h = case['hist']
+        suffix = FORMATS[h['fmt']]
+        base = os.environ.get('VERIF_WORK') or os.path.join('/verif', 'work', 'c09_manual')
+        os.makedirs(base, exist_ok=True)
+        tmp = tempfile.mkdtemp(prefix='c09s_', dir=base)
+        try:
+            ext = build_ext(case)
+            obs = {'initial': enc(copy.deepcopy(content_of(ext))), 'touched': True, 'points': []}
+            p = os.path.join(tmp, 'x' + suffix)
+            NiftiWrapper(make_image(case, ext)(nb.Nifti1Image)).to_filename(p)
+            truth_data = voxels_of(case)
+            truths = hist_truths(case)
+            here = os.path.dirname(os.path.dirname(os.path.abspath(__file__)))
+            env = dict(os.environ, PYTHONPATH=here + os.pathsep + os.environ.get('PYTHONPATH', ''))
+            for gi, group in enumerate(h['groups']):
+                spec = {'path': p, 'edits': group['edits'], 'out': os.path.join(tmp, 'out%d.json' % gi)}
+                sp = os.path.join(tmp, 'spec%d.json' % gi)
+                json.dump(spec, open(sp, 'w'))
+                try:
+                    r = subprocess.run([sys.executable, '-m', 'props.c09', 'samepath-child', sp], cwd=here, env=env,
+                                       stdout=subprocess.PIPE, stderr=subprocess.STDOUT, timeout=100)
+                    rc, tail = r.returncode, r.stdout.decode('utf-8', 'replace')[-300:]
+                except subprocess.TimeoutExpired:
+                    rc, tail = 'timeout', ''
+                if rc != 0 or not os.path.exists(spec['out']):
+                    obs['points'].append({'cur': enc(truths[gi]), 'valid': 'ok', 'to_json': {'err': 'child'}, 'str': {'err': 'child'},
+                                          'save': 'child', 'exit': rc, 'tail': tail,
+                                          'file_size': os.path.getsize(p) if os.path.exists(p) else None})
+                    break
+                pt = json.load(open(spec['out']))
+                if pt.get('save') == 'ok':
+                    snapshot = dec(pt['cur'])
+                    pt.update(observe_file(p, snapshot))
+                    try:
+                        nw2 = NiftiWrapper.from_filename(p)
+                        rl = observe_ext(nw2.meta_ext, snapshot)
+                        rl['mem_after'] = bool(pt.get('mem_after'))
+                        pt['reload'] = rl
+                    except Harness:
+                        raise
+                    except Exception as e:
+                        pt['reload'] = {'err': errname(e), 'msg': str(e)[:200]}
+                    try:
+                        got = np.asanyarray(nb.load(p, mmap=False).dataobj)
+                        pt['data_same'] = bool(got.shape == truth_data.shape and np.array_equal(got, truth_data))
+                    except Exception as e:
+                        pt['data_same'] = False
+                        pt['data_err'] = errname(e)
+                obs['points'].append(pt)
+            return obs
+        except Harness as e:
+            return {'harness': str(e)}
+        finally:
+            shutil.rmtree(tmp, ignore_errors=True)
+
+    coq_case = staticmethod(Hist.coq_case.__func__ if hasattr(Hist.coq_case, '__func__') else Hist.coq_case)
+
+    @staticmethod
+    def messages(case, obs):
+        if isinstance(obs, dict) and 'points' in obs:
+            for i, pt in enumerate(obs['points']):
+                if 'exit' in pt:
+                    return ['[killed] load / edit / save onto the loaded path: the interpreter ended with status %s (file now %s bytes)'
+                            % (pt['exit'], pt.get('file_size'))]
+        msgs = Hist.messages(case, obs)
+        if isinstance(obs, dict) and 'points' in obs:
+            for pt in obs['points']:
+                if pt.get('save') == 'ok' and not pt.get('data_same'):
+                    msgs.append('[voxels] after saving onto the loaded path the voxel data of the file is not the image data')
+        return msgs
+
+    @staticmethod
+    def oracle(case, obs):
+        msgs = SamePath.messages(case, obs)
+        return msgs[0] if msgs else None
+
+    @staticmethod
+    def signature(case, obs, msg):
+        return 'samepath/' + msg_id(msg)
+
+    nontrivial = staticmethod(Hist.nontrivial.__func__ if hasattr(Hist.nontrivial, '__func__') else Hist.nontrivial)
+
+    @staticmethod
+    def shrink(case):
+        h = case['hist']
+        groups = h['groups']
+        for i in range(len(groups)):
+            c = dict(case, hist=dict(h, groups=groups[:i] + groups[i + 1:]))
+            if c['hist']['groups'] and hist_plan_ok(c):
+                yield c
+        for field, small in (('foreign', None), ('endian', '<'), ('hdr_slice', None), ('entries', [])):
+            if case.get(field) != small:
+                c = dict(case, **{field: small})
+                if hist_plan_ok(c):
+                    yield c
+
+
+PARTS = [Codec, Loads, Ext, Hist, SamePath]
 
 
 # link (integrator): the abstract extension model (coq/Ext) is tied to the raw JSON content model (coq/Content, coq/Json,
@@ -1823,3 +2022,7 @@ COQ_PROPS = (list(COQ_PROPS) if isinstance(COQ_PROPS, (list, tuple)) else [COQ_P
 THEOREMS = list(THEOREMS) + ['C09_from_to_content', 'C09_constructors_agree_content', 'C09_from_json_models_agree', 'C09_roundtrip_ext', 'C09_qtok_dec_float']
 if globals().get('TABLES'): TABLES = sorted(set(list(TABLES) + _link.TABLES))
 PARTS = list(PARTS) + [_link.LinkPart]
+
+
+if __name__ == '__main__' and sys.argv[1:2] == ['samepath-child']:
+    samepath_child(sys.argv[2])
